@@ -244,6 +244,12 @@ func load(dir string, tag string) *pkgInfo {
 									}
 									if et != "" {
 										p.fieldElem["global."+n.Name] = et
+										if strings.Contains(et, ".") {
+											p.external["global."+n.Name] = true // a value of another package's type
+										}
+										if strings.HasPrefix(et, "atomic.") || et == "sync.Map" || et == "sync.Pool" || et == "sync.Once" || et == "sync.WaitGroup" {
+											p.selfSync["global."+n.Name] = true
+										}
 									}
 								}
 							}
@@ -1071,6 +1077,7 @@ func main() {
 	first := true
 	var pairs []string
 	var mutexPairs []string
+	var allMutexes []string
 	methodNames := map[string]bool{}
 	var externalFields []string
 	var selfSyncFields []string
@@ -1098,6 +1105,7 @@ func main() {
 		}
 		perStruct := map[string][]string{}
 		for mf := range p.mutexField {
+			allMutexes = append(allMutexes, q(mf))
 			st := mf[:strings.Index(mf, ".")]
 			perStruct[st] = append(perStruct[st], mf)
 		}
@@ -1180,6 +1188,11 @@ func main() {
 	sb.WriteString("].\n\n")
 	// method names defined by the packages' own types and interfaces: a call of such a method
 	// on a field must be resolved by the policy; any other method belongs to another package
+	// every mutex field (candidates when a location has no guard of its own: see LockPolicy.choose_policy)
+	sb.WriteString("Definition gen_all_mutexes : list string := [")
+	sort.Strings(allMutexes)
+	sb.WriteString(strings.Join(allMutexes, "; "))
+	sb.WriteString("].\n\n")
 	sb.WriteString("Definition gen_methods : list string := [")
 	var ms []string
 	for m := range methodNames {
